@@ -28,7 +28,7 @@ RUN_WALL_S = 30
 SYS_MAX_LEN = 4
 TIERS = {
     "quick": {"cases": 160_000, "episode": 400, "selftest": 96, "wall_cap_s": 600, "shrink_s": 45},
-    "thorough": {"cases": 30_000_000, "episode": 2000, "selftest": 1024, "wall_cap_s": 3 * 3600, "shrink_s": 120, "distinct_sample": 32},
+    "thorough": {"cases": 20_000_000, "episode": 2000, "selftest": 1024, "wall_cap_s": 3 * 3600, "shrink_s": 120},
 }
 RULE = ("cases 0..69903 are the systematic sweep of every history of length 1..4 over {UNSEG,FIRST,CONT,LAST} x 2 APIDs x "
         "{in-sequence, gap} (a warm-up for short histories); later cases draw, from one seed, either a direct history "
